@@ -88,14 +88,29 @@ inline RunnerArgs parse_args(int argc, char** argv) {
     return a;
 }
 
+// Version of the byte -> case decoders.  Stored reproducers are byte strings, so a decoder that gains new shapes must keep decoding the
+// old files the old way: a case file whose header carries no "decoder=N" tag was written for version 1; generated cases and bare hex
+// files (the driver's minimisation candidates) use the current version.
+constexpr int kDecoderCurrent = 2;
+inline int g_decoder = kDecoderCurrent;
+
 inline std::vector<std::uint8_t> read_case_file(const std::string& path) {
     std::ifstream f(path);
     std::string line;
     std::string hexs;
+    bool header = false;
+    int tagged = 0;
     while (std::getline(f, line)) {
-        if (line.empty() || line[0] == '#') { continue; }
+        if (line.empty()) { continue; }
+        if (line[0] == '#') {
+            header = true;
+            auto at = line.find("decoder=");
+            if (at != std::string::npos) { tagged = std::atoi(line.c_str() + at + 8); }
+            continue;
+        }
         hexs += line;
     }
+    g_decoder = tagged != 0 ? tagged : (header ? 1 : kDecoderCurrent);
     return unhex(hexs);
 }
 
@@ -177,7 +192,7 @@ inline int runner_main(const RunnerArgs& a, RunCaseFn run_case) {
     st.dump(a.out + "/stats." + tag + ".json", a.out + "/fp." + tag + ".bin");
     for (auto& [sig, bytes] : known_repro) {
         std::ofstream f(a.out + "/known." + tag + "." + sig + ".hex");
-        f << "# property=" << a.prop << " signature=" << sig << "\n";
+        f << "# property=" << a.prop << " signature=" << sig << " decoder=" << kDecoderCurrent << "\n";
         std::string m = known_msg[sig];
         for (auto& ch : m) {
             if (ch == '\n') { ch = ' '; }
@@ -186,7 +201,7 @@ inline int runner_main(const RunnerArgs& a, RunCaseFn run_case) {
     }
     if (oc.failed) {
         std::ofstream f(a.out + "/fail." + tag + ".hex");
-        f << "# property=" << a.prop << " signature=" << fail_sig << " seed=" << a.seed << " shard=" << a.shard << "\n";
+        f << "# property=" << a.prop << " signature=" << fail_sig << " seed=" << a.seed << " shard=" << a.shard << " decoder=" << kDecoderCurrent << "\n";
         std::stringstream ss(fail_msg);
         std::string line;
         while (std::getline(ss, line)) { f << "# " << line << "\n"; }
